@@ -123,6 +123,11 @@ NbrLoop(st, e, ax, list) ==
 
 St0 == [ord |-> order, ok |-> TRUE]
 
+\* Only states within the primitive-bisection budget are expanded (every public call adds at
+\* least one leaf, so this bounds the exploration); all their successors are generated and
+\* checked.  An unbounded specification is obtained with a huge Budget.
+Expand == Cardinality(Leaves) <= Nt * Nx + Budget
+
 \* process a list of elements sequentially (the `for elem in ...: self.refine_axis(elem, ax)`
 \* loops); `strict` models an `assert not elem.children` in front of the call; without it the
 \* call itself fails on a non-leaf
@@ -213,7 +218,10 @@ DorflerIso(M) ==
   /\ "dorfler" \in Ops /\ err = "none"
   /\ M # {}
   /\ \A e \in M : e.lt < MaxL /\ e.lx < MaxL
-  /\ LET mt  == Stable(SubSeqOf(order, M), 0)
+  \* equally large indicators are visited in an order that depends on argsort's internals:
+  \* any order of the marked elements, then Python's stable sort by level
+  /\ \E mseq \in SetToSeqs(M) :
+     LET mt  == Stable(mseq, 0)
          st1 == RefList(St0, mt, 0)
          st2 == RefList(st1, Stable(KidsOf(mt), 1), 1)
          decl == DorflerDecl(Leaves, M, M)
@@ -221,6 +229,22 @@ DorflerIso(M) ==
         /\ err' = (IF ~st2.ok THEN "dorfler_refine_isotropic"
                    ELSE IF Rng(st2.ord) # decl THEN "dorfler:not-declarative" ELSE err)
         /\ last' = [op |-> "dorfler_iso", m |-> M]
+
+\* "independent of the processing order of equally ranked elements": all outcomes of processing
+\* a set in *any* order compatible with ascending level (set-valued; only for tiny configurations)
+RECURSIVE ProcAny(_, _, _)
+ProcAny(st, Todo, ax) ==
+  IF Todo = {} \/ ~st.ok THEN {st}
+  ELSE LET cand == {e \in Todo : \A f \in Todo : Lvl(e, ax) <= Lvl(f, ax)}
+       IN UNION {ProcAny(RefAx(st, e, ax), Todo \ {e}, ax) : e \in cand}
+DorflerAnyOrder ==
+  Expand =>
+  \A Mt \in SUBSET Leaves, Ms \in SUBSET Leaves :
+     (Cardinality(Mt) + Cardinality(Ms) <= 3 /\ (\A e \in Mt : e.lt < MaxL) /\ (\A e \in Ms : e.lx < MaxL)) =>
+        \A r1 \in ProcAny(St0, Mt, 0) :
+           /\ r1.ok
+           /\ LET ms == UNION {IF e \in Rng(r1.ord) THEN {e} ELSE Children(e, 0) : e \in Ms} IN
+              \A r2 \in ProcAny(r1, ms, 1) : r2.ok /\ Rng(r2.ord) = DorflerDecl(Leaves, Mt, Ms)
 
 \* refine_grading(sigma = P/2, K = 4): integer form of the two marking tests
 \*   h_t/K >= h_x^sigma   <=>  2*lt <= CT + P*lx      (mark for time)
@@ -256,11 +280,6 @@ Grade ==
      /\ order' = r.st.ord
      /\ err' = (IF r.st.ok THEN err ELSE "refine_grading")
      /\ last' = [op |-> "grade"]
-
-\* Only states within the primitive-bisection budget are expanded (every public call adds at
-\* least one leaf, so this bounds the exploration); all their successors are generated and
-\* checked.  An unbounded specification is obtained with a huge Budget.
-Expand == Cardinality(Leaves) <= Nt * Nx + Budget
 
 Step ==
   \/ \E e \in Leaves, ax \in {0, 1} : Bisect(e, ax)
